@@ -484,6 +484,37 @@ def install(E):
                 return NULL
             i += 1
 
+    @reg("memchr")
+    def memchr(E, st, fr, ins, a):
+        c = a[1] & 255 if not is_sym(a[1]) else _raise_sym(a[1])
+        n = csize(E, a[2])
+        for i in range(n):
+            if cbyte(E, st, a[0], i) == c:
+                return Ptr(a[0].obj, E.padd(a[0].off, i))
+        return NULL
+
+    @reg("strrchr")
+    def strrchr(E, st, fr, ins, a):
+        c = a[1] & 255 if not is_sym(a[1]) else _raise_sym(a[1])
+        h = E.cstring(st, a[0]) + b"\0"
+        k = h.rfind(bytes([c]))
+        return NULL if k < 0 else Ptr(a[0].obj, E.padd(a[0].off, k))
+
+    @reg("strspn")
+    def strspn(E, st, fr, ins, a):
+        h = E.cstring(st, a[0])
+        n = E.cstring(st, a[1])
+        for i, c in enumerate(h):
+            if c not in n:
+                return i
+        return len(h)
+
+    @reg("atoi")
+    def atoi(E, st, fr, ins, a):
+        import re
+        m = re.match(r"\s*[-+]?\d+", E.cstring(st, a[0]).decode("latin1"))
+        return (int(m.group(0)) if m else 0) & mask(32)
+
     @reg("strstr")
     def strstr(E, st, fr, ins, a):
         h = E.cstring(st, a[0])
@@ -537,6 +568,14 @@ def install(E):
     def strtod(E, st, fr, ins, a):
         s = E.cstring(st, a[0]).decode("latin1")
         import re
+        mph = re.match(r"\s*\x01(\d+)\x02", s)
+        if mph:
+            k, v = E.token_value(st, int(mph.group(1)))
+            if not a[1].is_null():
+                E.store(st, a[1], ir.I8P, Ptr(a[0].obj, E.padd(a[0].off, mph.end())))
+            if k == "double":
+                return v
+            return E.fp.sitofp(v, 64) if is_sym(v) else (Fraction(v) if E.exact else float(v))
         m = re.match(r"\s*[-+]?(?:(?:\d+\.?\d*|\.\d+)(?:[eE][-+]?\d+)?|inf(?:inity)?|nan)", s, re.I)
         if not m:
             n, v = 0, (Fraction(0) if E.exact else 0.0)
@@ -673,7 +712,8 @@ def install(E):
     X["_ZSt24__throw_out_of_range_fmtPKcz"] = thrower("_ZTISt12out_of_range")
     X["_ZSt20__throw_out_of_rangePKc"] = thrower("_ZTISt12out_of_range")
     X["_ZSt16__throw_bad_castv"] = thrower("_ZTISt8bad_cast")
-    install_streams(E)
+    from . import streams
+    streams.install(E)
     install_printf(E)
 
 
@@ -684,303 +724,6 @@ def _pname(st, p):
 
 def _raise_sym(t):
     raise S.SymByte(t)
-
-
-# ---------------------------------------------------------------------------------------------------
-# iostream model: a stream object is identified by its address; its content is a python list of byte
-# values (concrete ints or z3 BV8) and number tokens.  Only what the API layer needs is modelled; anything
-# else stays "unmodelled external" and is reported loudly.
-def install_streams(E):
-    X = E.externs
-    from .irsym import Fork
-
-    def key(p):
-        if not isinstance(p.off, int):
-            raise EngineError("symbolic stream pointer")
-        return (p.obj, p.off)
-
-    def buf(st, p, create=True):
-        s = st.user.get("streams")
-        s = dict(s) if s else {}
-        k = key(p)
-        if k not in s:
-            if not create:
-                return None
-            s[k] = []
-        else:
-            s[k] = list(s[k])
-        st.user["streams"] = s
-        return s[k]
-
-    def vtable(E, st, kind):
-        name = "%vt_" + kind
-        oid = st.globals.get(name)
-        if oid is None:
-            o = E.new_obj(st, 192, name="vtable(model) " + kind, zero=True, kind="global")
-            o.cells[64] = (Ptr("@vfmodel_%s_D1" % kind, 0), 8)
-            o.cells[72] = (Ptr("@vfmodel_%s_D0" % kind, 0), 8)
-            st.globals[name] = oid = o.id
-        return Ptr(oid, 64)
-
-    def ctor(kind):
-        def f(E, st, fr, ins, a):
-            this = a[0]
-            E.store(st, this, ir.I8P, vtable(E, st, kind))
-            b = buf(st, this)
-            del b[:]
-            kinds = dict(st.user.get("stream_kind") or {})
-            kinds[key(this)] = kind
-            st.user["stream_kind"] = kinds
-            if kind in ("ostringstream", "istringstream"):
-                sb = E.padd(this.off, 8 if kind == "ostringstream" else 16)
-                for off in (8, 16, 24, 32, 40, 48):
-                    E.store(st, Ptr(this.obj, E.padd(sb, off)), ir.I8P, NULL)
-                E.store(st, Ptr(this.obj, E.padd(sb, 64)), ir.I32, 16)
-                E.make_string(E, st, Ptr(this.obj, E.padd(sb, 72)), [])
-            return None
-        return f
-
-    def dtor(kind, deleting):
-        def f(E, st, fr, ins, a):
-            this = a[0]
-            s = dict(st.user.get("streams") or {})
-            s.pop(key(this), None)
-            st.user["streams"] = s
-            if deleting:
-                X["free"](E, st, fr, ins, [this])
-            return None
-        return f
-
-    for kind, mang in (("ostringstream", "NSt7__cxx1119basic_ostringstreamIcSt11char_traitsIcESaIcEE"),
-                       ("istringstream", "NSt7__cxx1119basic_istringstreamIcSt11char_traitsIcESaIcEE"),
-                       ("ofstream", "NSt14basic_ofstreamIcSt11char_traitsIcEE"),
-                       ("ifstream", "NSt14basic_ifstreamIcSt11char_traitsIcEE")):
-        X["_Z%sC1Ev" % mang] = ctor(kind)
-        X["_Z%sC2Ev" % mang] = ctor(kind)
-        X["_Z%sD1Ev" % mang] = dtor(kind, False)
-        X["_Z%sD2Ev" % mang] = dtor(kind, False)
-        X["_Z%sD0Ev" % mang] = dtor(kind, True)
-        X["vfmodel_%s_D1" % kind] = dtor(kind, False)
-        X["vfmodel_%s_D0" % kind] = dtor(kind, True)
-
-    def open_ctor(kind):
-        def f(E, st, fr, ins, a):
-            ctor(kind)(E, st, fr, ins, a)
-            X["_ZNSt13basic_filebufIcSt11char_traitsIcEE4openEPKcSt13_Ios_Openmode"](E, st, fr, ins, [a[0], a[1], a[2]])
-            return None
-        return f
-    X["_ZNSt14basic_ofstreamIcSt11char_traitsIcEEC1EPKcSt13_Ios_Openmode"] = open_ctor("ofstream")
-    X["_ZNSt14basic_ifstreamIcSt11char_traitsIcEEC1EPKcSt13_Ios_Openmode"] = open_ctor("ifstream")
-
-    def put_bytes(st, os_, data):
-        b = buf(st, os_)
-        b.extend(data)
-        kinds = st.user.get("stream_kind") or {}
-        if kinds.get(key(os_)) == "ostringstream":
-            sync(E, st, os_, b)
-        return os_
-
-    def sync(E, st, os_, b):
-        """mirror the content into the object's basic_stringbuf so that header-inlined str() works:
-        ostringstream = {vptr, stringbuf{vptr, in_beg, in_cur, in_end, out_beg, out_cur, out_end, locale, mode, string}}"""
-        sb = E.padd(os_.off, 8)
-        n = len(b)
-        if any(isinstance(x, tuple) for x in b):
-            raise EngineError("symbolic number formatted into an ostringstream (unsupported)")
-        o = E.new_obj(st, n + 1, name="heap%d" % E.next_obj, kind="heap")
-        for i, x in enumerate(b):
-            o.cells[i] = (x, 1)
-        o.cells[n] = (0, 1)
-        P_ = lambda off: Ptr(os_.obj, E.padd(sb, off))
-        E.store(st, P_(32), ir.I8P, Ptr(o.id, 0))
-        E.store(st, P_(40), ir.I8P, Ptr(o.id, n))
-        E.store(st, P_(48), ir.I8P, Ptr(o.id, n))
-
-    def read_n(E, st, p, n):
-        out = []
-        for i in range(n):
-            o, off = E.deref(st, Ptr(p.obj, E.padd(p.off, i)), 1)
-            v = E._byte_of(o, off)
-            if v is None:
-                raise S.MemError("stream insert reads uninitialised byte")
-            out.append(v)
-        return out
-
-    def insert(E, st, fr, ins, a):  # __ostream_insert(os, s, n)
-        n = a[2]
-        if is_sym(n):
-            raise S.SymOffset(bv(n, 64))
-        return put_bytes(st, a[0], read_n(E, st, a[1], n))
-    X["_ZSt16__ostream_insertIcSt11char_traitsIcEERSt13basic_ostreamIT_T0_ES6_PKS3_l"] = insert
-
-    def ins_cstr(E, st, fr, ins, a):
-        if a[1].is_null():
-            return a[0]
-        return put_bytes(st, a[0], list(E.cstring(st, a[1])))
-    X["_ZStlsISt11char_traitsIcEERSt13basic_ostreamIcT_ES5_PKc"] = ins_cstr
-
-    def ins_int(signed, bits):
-        def f(E, st, fr, ins, a):
-            v = a[1]
-            if is_sym(v):
-                return put_bytes(st, a[0], [("int", v)])
-            v = to_signed(v, bits) if signed else v
-            return put_bytes(st, a[0], list(str(v).encode()))
-        return f
-    X["_ZNSolsEi"] = ins_int(True, 32)
-    X["_ZNSo9_M_insertIlEERSoT_"] = ins_int(True, 64)
-    X["_ZNSo9_M_insertImEERSoT_"] = ins_int(False, 64)
-    X["_ZNSo9_M_insertIbEERSoT_"] = ins_int(False, 8)
-
-    def ins_double(E, st, fr, ins, a):
-        return put_bytes(st, a[0], [("double", a[1])])
-    X["_ZNSo9_M_insertIdEERSoT_"] = ins_double
-
-    def put(E, st, fr, ins, a):
-        c = a[1]
-        if not is_sym(c):
-            c &= 255
-        return put_bytes(st, a[0], [c])
-    X["_ZNSo3putEc"] = put
-
-    def flush(E, st, fr, ins, a):
-        return a[0]
-    X["_ZNSo5flushEv"] = flush
-
-    def endl(E, st, fr, ins, a):
-        return put_bytes(st, a[0], [10])
-    X["_ZSt4endlIcSt11char_traitsIcEERSt13basic_ostreamIT_T0_ES6_"] = endl
-
-    def tellp(E, st, fr, ins, a):
-        b = buf(st, a[0])
-        return [len(b), 0]
-    X["_ZNSo5tellpEv"] = tellp
-
-    def make_string(E, st, dst, data):
-        """construct a std::string at dst (uninitialised storage) holding data (list of byte values)"""
-        n = len(data)
-        if n < 16:
-            bufp = Ptr(dst.obj, E.padd(dst.off, 16))
-        else:
-            o = E.new_obj(st, n + 1, name="heap%d" % E.next_obj, kind="heap")
-            bufp = Ptr(o.id, 0)
-            E.store(st, Ptr(dst.obj, E.padd(dst.off, 16)), ir.I64, n)
-        E.store(st, dst, ir.I8P, bufp)
-        E.store(st, Ptr(dst.obj, E.padd(dst.off, 8)), ir.I64, n)
-        for i, b in enumerate(data):
-            if isinstance(b, tuple):
-                raise EngineError("number token inside a stream turned into a string (unsupported)")
-            E.store(st, Ptr(bufp.obj, E.padd(bufp.off, i)), ir.I8, b)
-        E.store(st, Ptr(bufp.obj, E.padd(bufp.off, n)), ir.I8, 0)
-
-    E.make_string = make_string
-
-    def oss_str(E, st, fr, ins, a):  # sret string*, this
-        b = buf(st, a[1])
-        make_string(E, st, a[0], list(b))
-        return None
-    X["_ZNKSt7__cxx1119basic_ostringstreamIcSt11char_traitsIcESaIcEE3strEv"] = oss_str
-
-    def std_string_bytes(E, st, p):
-        data = E.load(st, p, ir.I8P)
-        n = E.load(st, Ptr(p.obj, E.padd(p.off, 8)), ir.I64)
-        if is_sym(n):
-            raise S.SymOffset(bv(n, 64))
-        return read_n(E, st, data, n)
-    E.std_string_bytes = std_string_bytes
-
-    def iss_ctor_str(E, st, fr, ins, a):
-        ctor("istringstream")(E, st, fr, ins, a)
-        b = buf(st, a[0])
-        b.extend(std_string_bytes(E, st, a[1]))
-        return None
-    X["_ZNSt7__cxx1119basic_istringstreamIcSt11char_traitsIcESaIcEEC1ERKNS_12basic_stringIcS2_S3_EESt13_Ios_Openmode"] = iss_ctor_str
-    X["_ZNSt7__cxx1119basic_istringstreamIcSt11char_traitsIcESaIcEEC2ERKNS_12basic_stringIcS2_S3_EESt13_Ios_Openmode"] = iss_ctor_str
-
-    def owner_stream(st, p):
-        s = st.user.get("streams") or {}
-        best = None
-        for (o, off) in s:
-            if o == p.obj and off <= p.off and (best is None or off > best[1]):
-                best = (o, off)
-        if best is None:
-            raise EngineError("file operation on an object that is not a modelled stream")
-        return best
-
-    def vf_file(E, st, fr, ins, a):
-        files = dict(st.user.get("vfiles") or {})
-        files[E.cstring(st, a[0])] = list(E.cstring(st, a[1]))
-        st.user["vfiles"] = files
-        return None
-    X["vf_file"] = vf_file
-
-    def filebuf_open(E, st, fr, ins, a):
-        k = owner_stream(st, a[0])
-        name = E.cstring(st, a[1])
-        st.trace.append(("file.open", name.decode(errors="replace"), a[2]))
-        files = st.user.get("vfiles") or {}
-        opened = dict(st.user.get("opened") or {})
-        kinds = st.user.get("stream_kind") or {}
-        if kinds.get(k) == "ifstream":
-            if name in files:
-                b = buf(st, Ptr(k[0], k[1]))
-                del b[:]
-                b.extend(files[name])
-                opened[k] = name
-                st.user["opened"] = opened
-                return a[0]
-            return NULL
-        # output file: opening succeeds unless the harness registered the name as unwritable
-        if (st.user.get("unwritable") or {}).get(name):
-            return NULL
-        opened[k] = name
-        st.user["opened"] = opened
-        return a[0]
-    X["_ZNSt13basic_filebufIcSt11char_traitsIcEE4openEPKcSt13_Ios_Openmode"] = filebuf_open
-
-    def filebuf_close(E, st, fr, ins, a):
-        k = owner_stream(st, a[0])
-        opened = dict(st.user.get("opened") or {})
-        was = opened.pop(k, None)
-        st.user["opened"] = opened
-        st.trace.append(("file.close", (was or b"?").decode(errors="replace")))
-        return a[0] if was is not None else NULL
-    X["_ZNSt13basic_filebufIcSt11char_traitsIcEE5closeEv"] = filebuf_close
-
-    def is_open(E, st, fr, ins, a):
-        k = owner_stream(st, a[0])
-        return int(k in (st.user.get("opened") or {}))
-    X["_ZNKSt12__basic_fileIcE7is_openEv"] = is_open
-
-    def vf_stream_content(E, st, fr, ins, a):
-        b = buf(st, a[0], create=False)
-        if b is None:
-            raise EngineError("vf_stream_content on an object that is not a modelled stream")
-        cap = a[2]
-        data = list(b)[:max(0, cap - 1)]
-        for i, x in enumerate(data + [0]):
-            E.store(st, Ptr(a[1].obj, E.padd(a[1].off, i)), ir.I8, x)
-        del b[:]
-        return len(data)
-    X["vf_stream_content"] = vf_stream_content
-
-    def ios_clear(E, st, fr, ins, a):
-        return None
-    X["_ZNSt9basic_iosIcSt11char_traitsIcEE5clearESt12_Ios_Iostate"] = ios_clear
-
-    def ios_init(E, st, fr, ins, a):
-        return None
-    X["_ZNSt8ios_base4InitC1Ev"] = ios_init
-    X["_ZNSt6localeD1Ev"] = ios_init
-    X["_ZNSt9exceptionD2Ev"] = ios_init
-    X["_ZNSt13basic_filebufIcSt11char_traitsIcEED2Ev"] = ios_init
-    X["_ZNSt13basic_filebufIcSt11char_traitsIcEED1Ev"] = ios_init
-    X["_ZNSt13basic_filebufIcSt11char_traitsIcEEC1Ev"] = ios_init
-    X["_ZNSt9exceptionD1Ev"] = ios_init
-    X["_ZNSt6localeC1Ev"] = ios_init
-    X["_ZNSt8ios_baseD2Ev"] = ios_init
-    X["_ZNSt8ios_baseC2Ev"] = ios_init
-    X["_ZNSt8ios_base4InitD1Ev"] = ios_init
 
 
 def c_format(E, st, fmt, args):
